@@ -17,6 +17,13 @@ exception Bad of string
 (* registers holding the address of the function's stack arguments in front of the T line being read, and the address width *)
 let sa_regs : Rair.n list ref = ref []
 let sa_aw = ref 8
+(* by-reference call arguments: per temporary (frame offset k) the registers holding its address; tmp_gen = the (register, k)
+   announced by an "N" line, which starts the set behind the next T line (the lea) *)
+let tmp_sets : (string * Rair.n list) list ref = ref []
+let tmp_gen : (int * string) option ref = ref None
+(* functions that keep a frame pointer: the register that must be constant in the body (stack arguments are named by their
+   offset from it); checked with the extracted, proven RaIRModel.reg_untouched *)
+let fp_reg : (Rair.n * Rair.n) option ref = ref None
 
 let vreg_of (s : string) : Rair.n =
   if String.length s < 2 || s.[0] <> 'v' then raise (Bad ("vreg " ^ s));
@@ -29,6 +36,17 @@ let loc_of (s : string) : Rair.loc =
             | [g; i] -> Rair.LReg (n_of_int (int_of_string g), n_of_int (int_of_string i))
             | _ -> raise (Bad ("loc " ^ s)))
   | 's' -> Rair.LSlot (cz_of_string (String.sub s 1 (String.length s - 1)))
+  | 't' ->
+    (* "t<reg>:<k>": the 16 bytes at [<reg>], which the dumper takes for the temporary at frame offset k of a by-reference call
+       argument. Accepted only while the extracted, proven RaIRModel.sa_step lists <reg> among the registers holding the
+       address of that temporary (the set starts as {p} behind "lea p, [sp+k]", line "N p k") *)
+    (match String.split_on_char ':' (String.sub s 1 (String.length s - 1)) with
+     | [r; k] ->
+       let set = (try List.assoc k !tmp_sets with Not_found -> []) in
+       if not (Rair.id_mem (n_of_int (int_of_string r)) set) then
+         raise (Bad ("unmodelled: stack argument copy stored through register " ^ r ^ " which is not known to hold the address of temporary " ^ k));
+       Rair.LSlot (cz_of_string k)
+     | _ -> raise (Bad ("loc " ^ s)))
   | 'a' ->
     (* "a<reg>:<k>": byte k of the function's stack-argument area, reached through GP register <reg> ("a-:<k>": named by the
        function entry itself). Accepted only while the extracted, proven RaIRModel.sa_step lists <reg> among the registers
@@ -138,16 +156,21 @@ let wide_value (h : int) : Rair.z =          (* a 128-bit value *)
 let sem_of (seed : int) (o : Rair.n) (args : Rair.z list) (w : int) : Rair.z list * int =
   let h = List.fold_left hash_z (hash_n (mix seed w) o) args in
   (List.init 80 (fun i -> wide_value (mix h (i + 7))), mix h 99)
+(* branch decisions: taken with probability 1/4, 2/4 or 3/4 depending on the trial, so that both loop-heavy and
+   fall-through-heavy paths are explored *)
 let semc_of (seed : int) (o : Rair.n) (args : Rair.z list) (w : int) : bool =
-  let h = List.fold_left hash_z (hash_n (mix (seed + 1) w) o) args in (mix h 5) land 3 <> 0 = false
+  let h = List.fold_left hash_z (hash_n (mix (seed + 1) w) o) args in (mix h 5) land 3 < 1 + (seed mod 3)
 let show_outcome show = function
   | Rair.Halt (res, w) -> Printf.sprintf "returns [%s] world %x" (String.concat ";" (List.map (fun z -> Z.format "%x" (z_of_cz z)) res)) (w land 0xFFFFFF)
   | Rair.Next _ -> "still running" | Rair.Stuck -> "STUCK"
+(* the long second round (540 more trials) only on request (environment C05_IR_LONG, used by --replay sessions): measured on the
+   seeded changes it tripled the time of a run on a broken tree and found no additional input *)
+let extended_used = ref 0
 let ir_search (sp : Rair.sprog) (tp : Rair.tprog) (trials : int) : string =
   let fuel = nat_of_int 4000 in
   let found = ref None and halted = ref 0 in
-  let t = ref 0 in
-  while !found = None && !t < trials do
+  let t = ref 0 and limit = ref trials and extended = ref false in
+  while !found = None && !t < !limit do
     let seed = 1000 + !t in
     let v0 = (fun v -> wide_value (hash_n (seed * 3) v)) in
     let t0 = { Rair.rs = (fun g i -> wide_value (hash_n (hash_n (seed * 5) g) i)); Rair.st = (fun a -> cz_of_int ((hash_z (seed * 7) a) land 255)) } in
@@ -160,22 +183,29 @@ let ir_search (sp : Rair.sprog) (tp : Rair.tprog) (trials : int) : string =
         | Rair.Halt (res', w') when w = w' && List.length res = List.length res' && List.for_all2 (fun a b -> Z.equal (z_of_cz a) (z_of_cz b)) res res' -> ()
         | _ -> found := Some (Printf.sprintf "ir-counterexample trial=%d: source %s, target %s" seed (show_outcome () so) (show_outcome () tout)))
      | _ -> ());
-    incr t
+    incr t;
+    (* nothing found in the first round: a longer second round (only refused pairs get here, so the cost is not on the green path) *)
+    if !found = None && !t = trials && !extended = false && !extended_used < 1 && Sys.getenv_opt "C05_IR_LONG" <> None then begin extended := true; incr extended_used; limit := trials * 10 end
   done;
-  match !found with Some s -> s | None -> Printf.sprintf "ir-search: no counterexample in %d trials (%d terminating)" trials !halted
+  match !found with Some s -> s | None -> Printf.sprintf "ir-search: no counterexample in %d trials (%d terminating)" !limit !halted
 
 let alu_cnt : (string, int * int) Hashtbl.t = Hashtbl.create 256
 let alu_bad = ref 0
+let mv_cnt : (string, int) Hashtbl.t = Hashtbl.create 64
+let mv_bad = ref 0
 
 let () =
   let cur = ref "" and ss = ref [] and ts = ref [] and hs = ref [] and tl = ref [] and bad = ref None in
   let finish () =
     (match !bad with
-     | Some why -> Printf.printf "R %s bad reason=%s %s\n" !cur (if String.length why > 30 && String.sub why 0 12 = "unmodelled: " then (if String.length why > 36 && String.sub why 12 13 = "register list" then "register-list-not-consecutive" else if String.length why > 36 && String.sub why 12 14 = "stack argument" then "stack-argument-through-untracked-register" else "unmodelled-instruction") else "dump-not-parsable") why
+     | Some why -> Printf.printf "R %s bad reason=%s %s\n" !cur (if String.length why > 30 && String.sub why 0 12 = "unmodelled: " then (if String.length why > 36 && String.sub why 12 13 = "register list" then "register-list-not-consecutive" else if String.length why > 40 && String.sub why 12 19 = "stack argument copy" then "by-reference-copy-through-untracked-register" else if String.length why > 36 && String.sub why 12 14 = "stack argument" then "stack-argument-through-untracked-register" else "unmodelled-instruction") else "dump-not-parsable") why
      | None ->
        if !ss = [] then Printf.printf "R %s nodump\n" !cur
        else begin
          let sp = List.rev !ss and tp = List.rev !ts and hints = List.rev !hs in
+         (match !fp_reg with
+          | Some (g, r) when not (Rair.reg_untouched g r tp) -> Printf.printf "R %s bad reason=frame-pointer-written unmodelled: the frame pointer is defined by an instruction of the body\n" !cur
+          | _ ->
          let ann = Rair.infer sp tp hints in
          (* = Rair.validate_full sp tp hints, unfolded to report which part refuses *)
          if Rair.check sp tp ann then begin
@@ -216,7 +246,7 @@ let () =
                  Printf.printf "#     %s\n" (try List.nth (List.rev !tl) i with _ -> "?") end) ann
              end
            | None -> Printf.printf "R %s reject entry-or-length\n" !cur
-         end
+         end)
        end);
     ss := []; ts := []; hs := []; tl := []; bad := None in
   try
@@ -225,8 +255,10 @@ let () =
       let toks = List.filter (fun s -> s <> "") (String.split_on_char ' ' line) in
       (try
         match toks with
-        | "P" :: idx :: _ -> cur := idx; sa_regs := []
+        | "P" :: idx :: _ -> cur := idx; sa_regs := []; fp_reg := None; tmp_sets := []; tmp_gen := None
         | ["M"; aw; r] -> sa_aw := int_of_string aw; sa_regs := [n_of_int (int_of_string r)]
+        | ["N"; r; k] -> tmp_gen := Some (int_of_string r, k)
+        | ["F"; g; r] -> fp_reg := Some (n_of_int (int_of_string g), n_of_int (int_of_string r))
         | "S" :: rest -> if !bad = None then ss := parse_s rest :: !ss
         | "T" :: h :: rest ->
           if !bad = None then begin
@@ -234,7 +266,11 @@ let () =
             hs := (if h = "-" then None else Some (nat_of_int (int_of_string h))) :: !hs;
             let ti = parse_t rest in
             ts := ti :: !ts;
-            sa_regs := Rair.sa_step (nat_of_int !sa_aw) ti !sa_regs
+            sa_regs := Rair.sa_step (nat_of_int !sa_aw) ti !sa_regs;
+            tmp_sets := List.map (fun (k, m) -> (k, Rair.sa_step (nat_of_int 8) ti m)) !tmp_sets;
+            (match !tmp_gen with
+             | Some (r, k) -> tmp_sets := (k, [n_of_int r]) :: List.remove_assoc k !tmp_sets; tmp_gen := None
+             | None -> ())
           end
         | "E" :: _ -> finish (); flush stdout
         | ["A"; id; w; form; a; b; res; m] ->
@@ -251,10 +287,41 @@ let () =
               if !alu_bad <= 5 then Printf.printf "AR bad %s w=%s %s a=%s b=%s cpu=%s alu_sem=0x%s\n" m w form a b res (Z.format "%x" exp) end
           end else Hashtbl.replace alu_cnt key (c, k + 1)
         | "AX" :: rest -> Printf.printf "AR unsupported %s\n" (String.concat " " rest)
+        | "V" :: rest ->
+          (* one execution of a whitelisted inserted move / swap on the host CPU: the T line the dumper derives for it is run by
+             the extracted tstep from the same register and stack contents; the whole destination and source registers and the
+             whole stack window must come out as on the CPU *)
+          let rec split acc = function "|" :: r -> (List.rev acc, r) | x :: r -> split (x :: acc) r | [] -> (List.rev acc, []) in
+          let (tl, data) = split [] rest in
+          (match data with
+           | a0 :: b0 :: w0 :: a1 :: b1 :: w1 :: _ ->
+             let ti = parse_t tl in
+             let g = (match List.find_opt (fun s -> String.length s > 1 && s.[0] = 'r') tl with
+                      | Some s -> int_of_string (String.sub s 1 (String.index s '.' - 1)) | None -> 0) in
+             let ida = if g = 2 then 1 else 0 and idb = if g = 2 then 2 else 1 in
+             let za = Z.of_string a0 and zb = Z.of_string b0 and zw = Z.of_string w0 in
+             let byte_of z o = Z.to_int (Z.logand (Z.shift_right z (8 * o)) (Z.of_int 255)) in
+             let t0 = { Rair.rs = (fun g' i' -> let g' = Z.to_int (z_of_cn g') and i' = Z.to_int (z_of_cn i') in
+                                    if g' = g && i' = ida then cz_of_z za else if g' = g && i' = idb then cz_of_z zb else cz_of_int 0);
+                        Rair.st = (fun o -> let o = z_of_cz o in if Z.sign o >= 0 && Z.lt o (Z.of_int 128) then cz_of_int (byte_of zw (Z.to_int o)) else cz_of_int 0) } in
+             let key = String.concat " " tl in
+             (match Rair.trun (fun _ _ w -> ([], w)) (fun _ _ _ -> false) (nat_of_int 1) [ti] ((Rair.O, t0), 0) with
+              | Rair.Next ((_, t1), _) ->
+                let ra = z_of_cz (t1.Rair.rs (n_of_int g) (n_of_int ida)) and rb = z_of_cz (t1.Rair.rs (n_of_int g) (n_of_int idb)) in
+                let zw1 = Z.of_string w1 in
+                let memok = ref true in
+                for o = 0 to 127 do if Z.to_int (z_of_cz (t1.Rair.st (cz_of_int o))) <> byte_of zw1 o then memok := false done;
+                if Z.equal ra (Z.of_string a1) && Z.equal rb (Z.of_string b1) && !memok then Hashtbl.replace mv_cnt key (1 + (try Hashtbl.find mv_cnt key with Not_found -> 0))
+                else begin incr mv_bad; if !mv_bad <= 5 then Printf.printf "VR bad %s : model dst=%s src=%s mem_equal=%b ; cpu dst=%s src=%s\n" key (Z.format "%x" ra) (Z.format "%x" rb) !memok a1 b1 end
+              | _ -> incr mv_bad; Printf.printf "VR bad %s : the model does not step\n" key)
+           | _ -> raise (Bad "V line"))
+        | "VX" :: rest -> Printf.printf "VR unsupported %s\n" (String.concat " " rest)
         | _ -> ()
       with Bad why -> bad := Some why | Failure why -> bad := Some ("parse: " ^ why))
     done
   with End_of_file ->
+    if Hashtbl.length mv_cnt > 0 || !mv_bad > 0 then
+      Printf.printf "VR summary compared_equal=%d bad=%d shapes=%d\n" (Hashtbl.fold (fun _ c a -> a + c) mv_cnt 0) !mv_bad (Hashtbl.length mv_cnt);
     if Hashtbl.length alu_cnt > 0 || !alu_bad > 0 then begin
       let cmp = Hashtbl.fold (fun _ (c, _) acc -> acc + c) alu_cnt 0 and skip = Hashtbl.fold (fun _ (_, k) acc -> acc + k) alu_cnt 0 in
       let never = Hashtbl.fold (fun key (c, _) acc -> if c = 0 then key :: acc else acc) alu_cnt [] in
